@@ -202,12 +202,23 @@ func C10(r *vf.Run) {
 				n = 0
 			}
 			p := g.Bytes(n)
+			if n > 0 && n < 4000 && g.Intn(6) == 0 {
+				// the source is itself a view of the image that overlaps the destination
+				// (moving a table inside the ROM): the bytes stored must be p's bytes at call time
+				src := cur - 1 - g.Intn(min(n, 16))
+				if src < 0 {
+					src = 0
+				}
+				if src+n <= len(rom.Contents) {
+					p = rom.Contents[src : src+n]
+					cells["write:source-aliases-image"]++
+				}
+			}
 			pc := append([]byte(nil), p...)
 			wn, werr := wr.Write(p)
+			p = pc // what was handed over
 			r.Eval(1)
-			if !bytes.Equal(p, pc) {
-				r.Fail("writer-modifies-argument", desc()+": Write modified its argument", nil)
-			}
+
 			fits := cur+n <= hi
 			hist := fmt.Sprintf("%s write#%d len=%d at window position %d/%d: (%d,%v)", desc(), wi, n, cur-lo, win, wn, werr)
 			if wn < 0 || wn > n {
